@@ -61,6 +61,6 @@ Named(x, h, acc) ==
                       ELSE InstNames(RunTx(x.root, x.codes, x.block, step.call, step.sc).log)
          IN Named(nx, h, Append(acc, [call |-> step.call, sc |-> step.sc, inst |-> names, ok |-> nx.obs[nx.done].ok]))
 
-Script == [ history |-> Named(Fresh, hid, <<>>), schedule |-> sched ]
+Script == [ history |-> Named(Fresh, hid, <<>>), schedule |-> sched, mods |-> Mods ]
 Emit == Complete => PrintT(ToJson(Script))
 =============================================================================
